@@ -853,11 +853,21 @@ func (e *Env) callExpr(n *ast.CallExpr) (Val, types.Type) {
 					args = append(args, e.x.flatten(v, t)...)
 				}
 			}
-			ls := e.x.leaves(rt)
-			if len(ls) != 1 {
-				panic("uninterpreted spec must return a scalar: " + name)
+			// heap-dependent spec functions take the heap parts they read as arguments
+			for _, rd := range sf.Reads {
+				args = append(args, e.readsArgs(sf.Pkg, rd)...)
 			}
-			return UF("spec!"+name, ls[0].sort, args...), rt
+			ls := e.x.leaves(rt)
+			if len(ls) == 1 {
+				return UF("spec!"+name, ls[0].sort, args...), rt
+			}
+			// structured result (e.g. an interface value): one UF per leaf
+			ts := make([]*T, len(ls))
+			for i, l := range ls {
+				ts[i] = UF("spec!"+name+"!"+l.path, l.sort, args...)
+			}
+			v, _ := e.x.unflatten(rt, ts)
+			return v, rt
 		}
 		e.loadState()
 		sub := &Env{x: e.x, st: e.st, facts: e.facts, vars: map[string]Val{}, types: map[string]types.Type{}, pkg: e.x.ld.pkgByName[sf.Pkg], old: e.old, isPre: e.isPre, bound: e.bound, boundTypes: e.boundTypes, depth: e.depth + 1, heads: e.heads, shim: e.shim}
@@ -1101,4 +1111,39 @@ func (e *Env) expandConjuncts(src string, depth int) (out []namedTerm, err error
 		return nil, err
 	}
 	return []namedTerm{{shortExpr(src), t}}, nil
+}
+
+// readsArgs: the current heap arrays for one "reads" item of a spec function:
+// "Struct.field" (all leaves of that field) or a map type "map[K]V" (domain and values).
+func (e *Env) readsArgs(pkg, item string) []*T {
+	st := e.st
+	if strings.HasPrefix(item, "map[") {
+		mt := e.x.ld.resolveTypeString(pkg, item)
+		if mt == nil {
+			panic("reads: unknown map type " + item)
+		}
+		ks, et := e.x.mapSorts(mt)
+		out := []*T{st.heapArr(mapDomKey(mt), ArrSort(SInt, ArrSort(ks, SBool)))}
+		for _, l := range e.x.leaves(et) {
+			out = append(out, st.heapArr(mapValKey(mt, l.path), ArrSort(SInt, ArrSort(ks, l.sort))))
+		}
+		return out
+	}
+	i := strings.LastIndex(item, ".")
+	if i < 0 {
+		panic("reads: expected Struct.field or a map type: " + item)
+	}
+	owner := e.x.ld.resolveTypeString(pkg, item[:i])
+	if owner == nil {
+		panic("reads: unknown type " + item[:i])
+	}
+	ft := fieldType(owner, item[i+1:])
+	if ft == nil {
+		panic("reads: unknown field " + item)
+	}
+	var out []*T
+	for _, l := range e.x.leaves(ft) {
+		out = append(out, st.heapArr(fieldKey(owner, joinPath(item[i+1:], l.path)), ArrSort(SInt, l.sort)))
+	}
+	return out
 }
